@@ -17,7 +17,8 @@ RULE = (
     "machine - after which original and clones receive diverging event suffixes. Oracle: the reference interpreter is forked at the clone point "
     "and each machine must follow its own fork (states, results, exceptions, full callback logs - so options, listeners and model callbacks "
     "survived); clone.model / listeners / recorder / custom attribute are equal but not shared (mutating one side is invisible on the other); "
-    "an event on one machine never produces records on another. non-trivial = a clone taken after >=1 event, with a non-default option or a "
+    "an event on one machine never produces records on another; listeners may compare equal by value; differential step: an option attribute changed on the "
+    "original after construction, then cloned - original and clone must answer an undeclared event alike. non-trivial = a clone taken after >=1 event, with a non-default option or a "
     "listener, followed by events on at least two of the machines"
 )
 ASSUMPTIONS = ["generated classes are registered as attributes of the harness module so that pickle can find them", "reference interpreter trusted"]
@@ -108,6 +109,30 @@ class P(Play):
         self.sent_at_clone.setdefault(name, 0)
         self.sent.setdefault(name, 0)
 
+    async def op_option_then_clone(self, step):
+        """Purely differential: an option attribute of the original is changed after construction, then the machine is cloned; the
+        clone must answer an event nobody declares exactly like the original does (whatever a late option change means)."""
+        src = self.ctxs[step.get("source", "main")] if step.get("source", "main") in self.ctxs else self.main
+        if src.interp.state is None:
+            return
+        old = src.sm.allow_event_without_transition
+        src.sm.allow_event_without_transition = not old
+        try:
+            try:
+                sm2 = copy.deepcopy(src.sm) if step["how"] == "deepcopy" else pickle.loads(pickle.dumps(src.sm))
+            except Exception as e:
+                raise Fail("clone-failed", f"step {self.i}: {step['how']} of the machine raised {type(e).__name__}: {e}")
+            outs = []
+            for sm in (src.sm, sm2):
+                o = await self.call(lambda sm=sm: sm.send("no_such_event_anywhere"))
+                outs.append((o[0], type(o[1]).__name__))
+            if outs[0] != outs[1]:
+                raise Fail("clone-differs", f"step {self.i}: after allow_event_without_transition was set to {not old!r} on the original, an undeclared event gives {outs[0]} on the original and {outs[1]} on its {step['how']} clone")
+        finally:
+            src.sm.allow_event_without_transition = old
+        src.H.log[:] = [t for t in src.H.log if t[0] != "G"]
+        self.labels.add("option-changed-then-cloned")
+
     async def body(self):
         self.sent, self.sent_at_clone, self.clone_interesting = {}, {}, False
         await super().body()
@@ -128,6 +153,8 @@ def cases(draw, tier):
             for c in spec["cbs"]:
                 if c["sends"]:
                     c["async"] = True
+    if any(p.startswith("l") for p in provs):
+        spec["eq_listeners"] = draw(st.booleans())  # listeners that compare by value (think frozen dataclasses): a copy is equal to, but is not, its original
     n = len(spec["states"])
     kind = draw(st.sampled_from(["ids", "ids", "int", "enum", "mixed", "tuple"]))
     vals = values_for(kind, n, draw)
@@ -152,6 +179,8 @@ def cases(draw, tier):
             hist.append({"op": "clone", "how": draw(st.sampled_from(["deepcopy", "pickle"])), "name": nm, "source": draw(st.sampled_from(["main"] + names)),
                          "protocol": draw(st.sampled_from([2, 4, 5]))})
             names.append(nm)
+        if draw(st.integers(0, 9)) == 0:
+            hist.append({"op": "option_then_clone", "how": draw(st.sampled_from(["deepcopy", "pickle"])), "source": draw(st.sampled_from(["main"] + names))})
         if draw(st.integers(0, 2)) == 0:
             step = dict(step, style="bound")
         if names:
